@@ -1,4 +1,4 @@
 """C17 — iteration and snapshots enumerate exactly the live entries."""
 from props import cachelib
 def run(ctx):
-    cachelib.run(ctx, "C17", [("iter", 4), ("snapshot", 4), ("ttl", 1)], 3600, 90000)
+    cachelib.run(ctx, "C17", [("iter", 4), ("snapshot", 4), ("ttl", 1)], 3600, 60000)
